@@ -211,7 +211,35 @@ def gen_small(rng):
             lines.append('if %s > %d:\n    %s = 0\nelse:\n    print(%s)' % (v, rng.randint(0, 2), w, w))
         else:
             lines.append('def show_%s(x):\n    print(x)\n    return x\nshow_%s(%s)' % (v, v, w))
+    # statements that live in the handler of a try and in the cases of a match (blocks that hang off nodes which are not statements)
+    r = rng.random()
+    v, w = rng.choice(vs), rng.choice(vs)
+    if r < 0.35:
+        lines.insert(rng.randint(0, len(lines)), 'try:\n    %s = %s + 1\nexcept NameError:\n    %s = 0\n    %s = %s + 2\nelse:\n    %s = 5\nfinally:\n    %s = %s' % (v, w, v, w, v, w, v, w))
+    elif r < 0.6:
+        lines.insert(rng.randint(0, len(lines)), 'match %s:\n    case 1:\n        %s = 1\n        %s = %s + 1\n    case _:\n        %s = 2\n        for %s in [3]:\n            %s = %s' % (v, w, v, w, v, w, v, w))
     return '\n'.join(lines) + '\n'
+
+
+def check_long_bodies(ctx, rng):
+    """long straight-line programs: a generalised pattern kept from the LAST few statements has very many partial embeddings in
+    the earlier ones - the one that binds the placeholders to the names they replaced must be among the matches returned"""
+    from pedal.core.commands import clear_report, contextualize_report
+    for n in (12, 18, 22, 26):
+        names = ['val%d' % i for i in range(n)]
+        src = ''.join('%s = %d\n' % (v, i) for i, v in enumerate(names))
+        for k in (2, 3):
+            keep = sorted(rng.sample(range(n - 5, n), k)) if rng.random() < 0.5 else list(range(n - k, n))
+            d = cc.Derived()
+            d.root_kind = 'Module'
+            d.steps = ['drop', 'var', 'wild']
+            d.var_bindings = {'_p%d_' % j: names[i] for j, i in enumerate(keep)}
+            d.exp_bindings = {}
+            d.pattern = ''.join('_p%d_ = ___\n' % j for j in range(k))
+            clear_report()
+            contextualize_report(src)
+            ctx.count('long_body_patterns')
+            check_pair(ctx, src, ast.parse(src), d, 'long-body')
 
 
 def gen_arith(rng):
@@ -263,6 +291,8 @@ def run(ctx):
         check_program(ctx, rng, p.src, 'generated', 6)
         check_program(ctx, rng, gen_small(rng), 'small', 8)
         check_program(ctx, rng, gen_arith(rng), 'arith', 6)
+    if ctx.shard % 4 == 2:
+        check_long_bodies(ctx, rng)
     files = corpus.corpus_files(max_bytes=ctx.pick(5000, 15000), repo=repo)
     mine = files[ctx.shard::ctx.nshards]
     rng.shuffle(mine)
